@@ -69,7 +69,7 @@ func valuePool() map[string][]*variants.Variant {
 		-0.5, -2.5, -3.5, 0.49999999999999994, 4503599627370497, -4503599627370497, 1.4999999999999998, 2.0000000000000004, -0.9} {
 		p["double"] = append(p["double"], vDouble(f))
 	}
-	for _, s := range []string{"", "a", "ab", "b", "é", "世", "1", "12", "-5", "+7", "007", "1.5", "abc", "true", "Yes", "N", "9007199254740993", "-9223372036854775808", "9223372036854775808", "x y", "0", "1e3", "h\u00e9llo", "\u65e5\u672c\u8a9eabc", "\u20acuro"} {
+	for _, s := range []string{"", "a", "ab", "b", "é", "世", "1", "12", "-5", "+7", "007", "1.5", "abc", "true", "Yes", "N", "9007199254740993", "-9223372036854775808", "9223372036854775808", "x y", "0", "1e3", "010", "0x10", "0b11", "0o17", "-010", "0777", "1_000", "h\u00e9llo", "\u65e5\u672c\u8a9eabc", "\u20acuro"} {
 		p["str"] = append(p["str"], vStr(s))
 	}
 	p["bool"] = []*variants.Variant{vBool(true), vBool(false)}
@@ -173,6 +173,8 @@ func outcome(v *variants.Variant, err error) string {
 	}
 	return "ok " + encVariant(v)
 }
+
+var decimalRe = regexp.MustCompile(`^[+-]?[0-9]+$`)
 
 var powRe = regexp.MustCompile(`Hpow\(d([0-9a-fNa]+);d([0-9a-fNa]+)\)`)
 
@@ -325,6 +327,23 @@ func propC06(c *Ctx) {
 					}
 					if res["getElement"] != want {
 						c.fail(Failure{Kind: "oracle", Op: fmt.Sprintf("op %s getElement %s %s", m, encArg(a), encArg(b)), Impl: res["getElement"], Note: "indexing must follow list semantics: expected " + want})
+					}
+				}
+				// a decimal numeral as second operand of an integer: the host addition of its decimal value
+				if (a.Type() == variants.Integer || a.Type() == variants.Long) && b.Type() == variants.String && m == "u" {
+					if n, err := strconv.ParseInt(b.AsString(), 10, 64); err == nil && decimalRe.MatchString(b.AsString()) {
+						want := "ok l"
+						var av int64
+						if a.Type() == variants.Long {
+							av = a.AsLong()
+						} else {
+							want = "ok i"
+							av = int64(a.AsInteger())
+						}
+						want += strconv.FormatInt(av+n, 10)
+						if res["add"] != want {
+							c.fail(Failure{Kind: "oracle", Op: fmt.Sprintf("op %s add %s %s", m, encArg(a), encArg(b)), Impl: res["add"], Note: "the second operand is the decimal numeral " + b.AsString() + ": expected " + want})
+						}
 					}
 				}
 				// membership follows list semantics: x IN [e...] iff some x = e (the element converted to x's type),
@@ -523,6 +542,15 @@ func runConvCase(c *Ctx, m string, a *variants.Variant, t variants.VariantType) 
 		} else if res.Type() != t {
 			c.fail(Failure{Kind: "oracle", Op: op, Impl: impl, Note: fmt.Sprintf("successful conversion returned type %d instead of the requested type %d", res.Type(), t)})
 			return impl
+		}
+		if a.Type() == variants.String && (t == variants.Integer || t == variants.Long) && decimalRe.MatchString(a.AsString()) {
+			if n, err := strconv.ParseInt(a.AsString(), 10, 64); err == nil {
+				want := "ok " + map[variants.VariantType]string{variants.Integer: "i", variants.Long: "l"}[t] + strconv.FormatInt(n, 10)
+				if impl != want {
+					c.fail(Failure{Kind: "oracle", Op: op, Impl: impl, Note: "a decimal numeral converts to its decimal value: expected " + want})
+					return impl
+				}
+			}
 		}
 		if m == "s" {
 			// whitelist + agreement with the unsafe manager
